@@ -319,7 +319,7 @@ int fiber_manager_get_kernel_thread_count() {
 extern int fiber_mutex_unlock_internal(fiber_mutex_t* mutex);
 
 void fiber_manager_do_maintenance() {
-  fiber_manager_t* const manager = fiber_manager_get();
+  fiber_manager_t* manager = fiber_manager_get();
 
   fiber_t* const old_fiber = manager->old_fiber;
   if (old_fiber->state == FIBER_STATE_SAVING_STATE_TO_WAIT) {
@@ -352,6 +352,11 @@ void fiber_manager_do_maintenance() {
     fiber_mutex_t* const to_unlock = manager->mutex_to_unlock;
     manager->mutex_to_unlock = NULL;
     fiber_mutex_unlock_internal(to_unlock);
+    // unlocking a contended mutex can yield, and this fiber may have been
+    // resumed by a different kernel thread: the remaining deferred actions
+    // must be taken from the manager of the thread we are running on now, not
+    // from the one we started on (which another fiber is using concurrently)
+    manager = fiber_manager_get();
   }
 
   if (manager->spinlock_to_unlock) {
